@@ -19,7 +19,8 @@ kcover_former_reading_differs, kcover_former_lp_eq.
 The four cyclic k-classes (kFlowDecompCycles, kPathCoverCycles, kLeastAbsErrorsCycles, kMinPathErrorCycles): model
 FP/Model/NodeExpandModesCyc.lean, driver ops lp.kfdcnode / lp.kcovercnode / lp.klaecnode / lp.kmpecnode, the same three-way
 K2 comparison (suites K2.<class>_node, safety optimisations off), Lean: node_mode_is_edge_mode_on_expansion_kcoverc
-(unconditional), _kfdc (hypothesis hcap), _klaec / _kmpec (hypothesis hzero), kfdc_caps_equal_iff,
+(unconditional), _kfdc (hypothesis hcap: same floor as w_max - the caps are floored since fix fcfd0b0), _klaec / _kmpec
+(hypothesis hzero), kfdc_caps_equal_iff,
 node_mode_walks_condense_*. The hypotheses are about original edges that carry an attribute named like the node flow
 attribute: NodeExpandedDiGraph copies it onto (u.1, v.0) and the cyclic constructors read the repetition caps off the
 expanded graph (finding C11-cyclic-node-mode-cap-from-edge-attribute: CAP_WITNESSES, replayed end to end with an
@@ -82,7 +83,7 @@ MODEL_SCOPE = ("modelled: NodeExpandedDiGraph.__init__ (graph, flow / length att
                "starts / ends, ignored nodes (list(set(...))), error_scaling; then the edge-level rest on the expansion: "
                "stDiGraph source / sink requirement, k, subset-constraint checks, negative / all-ignored checks, w_max, and the "
                "repetition caps as computed on the expanded graph from the copied attributes (edge_upper_bounds_dict, "
-               "compute_edge_max_reachable_value, |E|*|V|), given_weights. Not modelled there: safety optimisations, "
+               "compute_edge_max_reachable_value, |E|*|V|; floored on SCC edges since fix fcfd0b0), given_weights. Not modelled there: safety optimisations, "
                "trusted_edges_for_safety, elements_to_ignore_percentile / trusted_edges_for_safety_percentile, k = None (the "
                "width is taken from the real object); configurations on which both real constructors fail alike inside the "
                "solver wrapper (a negative value on an ignored node inside a cycle becomes a column upper bound below 0) are "
